@@ -11,6 +11,8 @@ import (
 	"sync"
 
 	"verif/engine/core"
+	"verif/gen/keys"
+	"verif/gen/ops"
 	"verif/gen/patches"
 	rpatch "verif/ref/patch"
 
@@ -422,6 +424,91 @@ func Explore(r *core.Run, o Options) {
 					r.Report(id, core.Fail{Key: fmt.Sprintf("failing-list-not-atomic/k=%d", k+1), What: "a patch list with a failing patch did not fail atomically", Detail: map[string]any{"k": k + 1}})
 				}
 				r.Class("failing-list")
+			}
+		}
+	}
+	if o.Mutation {
+		// lists whose JSON patch points into a value that an earlier patch of the same list supplied (such pointers are not
+		// what the validator lets through, but the statement is about every patch list handed to the composer): the earlier
+		// patch value is the caller's and must come out unchanged, also when a third patch makes the list fail
+		type supplier struct {
+			name, member string
+			mk           func() (patch.Patch, error)
+			fields       []string
+		}
+		suppliers := []supplier{
+			{"add-public-keys", "publicKey", func() (patch.Patch, error) {
+				return patch.NewAddPublicKeysPatch("[" + ops.PubKeyJSON("own9", keys.New("P-256", 39), `["authentication","assertionMethod"]`) + "]")
+			}, []string{"type", "purposes/0", "publicKeyJwk/crv", "publicKeyJwk", "purposes"}},
+			{"add-services", "service", func() (patch.Patch, error) {
+				return patch.NewAddServiceEndpointsPatch(`[{"id":"own9","type":"T9","serviceEndpoint":{"uri":"https://own9.example/","list":["a","b"]}}]`)
+			}, []string{"type", "serviceEndpoint/uri", "serviceEndpoint/list/1", "serviceEndpoint"}},
+			{"replace", "publicKey", func() (patch.Patch, error) {
+				return patch.NewReplacePatch(`{"publicKeys":[` + ops.PubKeyJSON("own9", keys.New("P-256", 39), `["authentication"]`) + `],"services":[{"id":"own9","type":"T9","serviceEndpoint":"https://own9.example/"}]}`)
+			}, []string{"type", "publicKeyJwk/x"}},
+			{"replace", "service", func() (patch.Patch, error) {
+				return patch.NewReplacePatch(`{"publicKeys":[` + ops.PubKeyJSON("own9", keys.New("P-256", 39), `["authentication"]`) + `],"services":[{"id":"own9","type":"T9","serviceEndpoint":"https://own9.example/"}]}`)
+			}, []string{"type", "serviceEndpoint"}},
+		}
+		jsonOps := []string{`{"op":"replace","path":%q,"value":"verif-other"}`, `{"op":"add","path":%q,"value":{"verif":1}}`, `{"op":"remove","path":%q}`,
+			`{"op":"move","from":%q,"path":"/verifMoved"}`, `{"op":"copy","from":"/alsoKnownAs","path":%q}`}
+		fail3, _ := patch.NewJSONPatch(`[{"op":"remove","path":"/verif-no-such-member"}]`)
+		for _, n := range starts {
+			for _, sp := range suppliers {
+				probe, err := sp.mk()
+				if err != nil {
+					core.Engine("supplier patch %s: %v", sp.name, err)
+				}
+				after1, err := dc.ApplyPatches(n.doc, []patch.Patch{probe})
+				if err != nil {
+					continue // (an id of the start document collides: not this section's subject)
+				}
+				l, _ := map[string]any(after1)[sp.member].([]any)
+				if len(l) == 0 {
+					continue
+				}
+				for _, field := range sp.fields {
+					ptr := fmt.Sprintf("/%s/%d/%s", sp.member, len(l)-1, field)
+					for oi, tmpl := range jsonOps {
+						for _, third := range []bool{false, true} {
+							first, _ := sp.mk()
+							jp, err := patch.NewJSONPatch("[" + fmt.Sprintf(tmpl, ptr) + "]")
+							if err != nil {
+								core.Engine("json patch: %v", err)
+							}
+							list := []patch.Patch{first, jp}
+							if third {
+								list = append(list, fail3)
+							}
+							id := fmt.Sprintf("%s|pointer-into-earlier-patch/%s%s/op%d/third=%v", strings.Join(pathNames(n.path), ","), sp.name, ptr, oi, third)
+							r.Eval(1)
+							docBefore, firstBefore, jpBefore := snapshot(n.doc), snapshot(first), snapshot(jp)
+							var res document.Document
+							func() {
+								defer func() {
+									if p := recover(); p != nil {
+										err = fmt.Errorf("panic: %v", p)
+									}
+								}()
+								res, err = dc.ApplyPatches(n.doc, list)
+							}()
+							det := map[string]any{"history": pathNames(n.path), "first_patch": firstBefore, "json_patch": jpBefore, "followed_by_failing_patch": third}
+							if a := snapshot(first); a != firstBefore {
+								r.Report(id, core.Fail{Key: "mutated-patch/pointer-into-earlier-patch/" + sp.name, What: "ApplyPatches modified the value of an earlier patch of the list through a later JSON patch", Detail: merge(det, map[string]any{"before": firstBefore, "after": a})})
+							}
+							if a := snapshot(jp); a != jpBefore {
+								r.Report(id, core.Fail{Key: "mutated-patch/pointer-into-earlier-patch/json", What: "ApplyPatches modified the JSON patch value", Detail: merge(det, map[string]any{"before": jpBefore, "after": a})})
+							}
+							if a := snapshot(n.doc); a != docBefore {
+								r.Report(id, core.Fail{Key: "mutated-input-document/pointer-into-earlier-patch", What: "ApplyPatches modified the input document", Detail: merge(det, map[string]any{"before": docBefore, "after": a})})
+							}
+							if third && (err == nil || res != nil) {
+								r.Report(id, core.Fail{Key: "failing-list-not-atomic/pointer-into-earlier-patch", What: "a patch list with a failing patch did not fail atomically", Detail: det})
+							}
+							r.Class("pointer-into-earlier-patch")
+						}
+					}
+				}
 			}
 		}
 	}
